@@ -159,8 +159,10 @@ CHECKS["C29"] = dict(
                "classes are fixtures (8.8.x.x public; 10.x / 192.168.x private); replies are random subsets, the verdict is an envelope",
     design=[dict(spec="MCHive.tla", cfg="MCHive.cfg", workers=4, timeout=600)],
     gen=dict(
-        quick=[_hgen("setups", dict(VERIF_LIMITS="edge"), num=8, max=14)],
-        thorough=[_hgen("setups-all-limits", dict(VERIF_LIMITS="all"), num=30, max=50),
+        quick=[_hgen("setups-from-2", dict(VERIF_LIMITS="ge2"), num=2, max=3, salt=2),
+               _hgen("setups", dict(VERIF_LIMITS="edge"), num=8, max=12)],
+        thorough=[_hgen("setups-from-2", dict(VERIF_LIMITS="ge2"), num=6, max=10, salt=2),
+                  _hgen("setups-all-limits", dict(VERIF_LIMITS="all"), num=30, max=50),
                   _hgen("setups-edge-limits", dict(VERIF_LIMITS="edge"), num=40, max=70, salt=1)]),
     judge=dict(spec="HiveTrace.tla", cfg="HiveTrace.cfg"),
     judge_timeout=3000, driver_timeout=2400,
